@@ -66,7 +66,7 @@ def checkedAddI64 (a b : Int) : Option Int := if inI64 (a + b) then some (a + b)
 def checkedSubI64 (a b : Int) : Option Int := if inI64 (a - b) then some (a - b) else none
 
 /-! ## `time::Duration` (seconds : i64, nanoseconds : i32 with |nanoseconds| < 10^9 and the same sign) -/
-def NANOS_PER_SEC : Int := 1000000000
+abbrev NANOS_PER_SEC : Int := 1000000000
 
 structure Dur where
   secs : Int
